@@ -105,14 +105,15 @@ End Dag.
 
 (* ---- concrete graphs for evaluation (the correspondence check) -------------------------- *)
 Inductive input := IConst (z : Z) | IConn (l : list nat).   (* connections, newest (= highest priority) first *)
-Record nodespec := { n_k : Z; n_ins : list input; n_remote : bool }.
+Record nodespec := { n_k : Z; n_ins : list input; n_remote : bool;
+                    n_macro : bool (* a nested macro child: two chained function nodes behind by-value IO *) }.
 Definition graph := list nodespec.
 
 Fixpoint nodup_nat (l : list nat) : list nat :=
   match l with [] => [] | x :: r => if memn x r then nodup_nat r else x :: nodup_nat r end.
 
 Definition g_node (g : graph) (n : nat) : nodespec :=
-  nth n g {| n_k := 0; n_ins := []; n_remote := false |}.
+  nth n g {| n_k := 0; n_ins := []; n_remote := false; n_macro := false |}.
 Definition in_conns (i : input) : list nat := match i with IConst _ => [] | IConn l => l end.
 Definition g_ups (g : graph) (n : nat) : list nat := nodup_nat (flat_map in_conns (n_ins (g_node g n))).
 Definition g_remote (g : graph) (n : nat) : bool := n_remote (g_node g n).
@@ -125,8 +126,12 @@ Definition lin (k : Z) (args : list Z) : Z := ((k + lin_sum 1 args) mod MODULUS)
 
 Definition in_val (env : nat -> Z) (i : input) : Z :=
   match i with IConst z => z | IConn [] => 0%Z | IConn (u :: _) => env u end.
+(* a macro child M(k, x) = Lin2(k=5, a=Lin1(k=k, a=x), b=7): as a node of the enclosing graph it is a
+   leaf whose function is that composition (its own internal run is again a DAG run, one level down) *)
 Definition g_sem (g : graph) (n : nat) (env : nat -> Z) : Z :=
-  lin (n_k (g_node g n)) (map (in_val env) (n_ins (g_node g n))).
+  let nd := g_node g n in
+  let args := map (in_val env) (n_ins nd) in
+  if n_macro nd then lin 5 [lin (n_k nd) args; 7%Z] else lin (n_k nd) args.
 
 Definition obs_log (l : list logev) : obs :=
   OL (map (fun e => match e with LStart n => OL [OS "s"; on n] | LFinish n => OL [OS "f"; on n] end) l).
